@@ -5104,3 +5104,11 @@ impl std::fmt::Display for Channel {
         }
     }
 }
+
+// verification hook (add-only): harnesses live outside the repository and
+// are compiled only by the Kani compiler, which is what sets `cfg(kani)`
+#[cfg(kani)]
+#[allow(dead_code, unused_imports, unused_variables, missing_docs)]
+mod verif_kani {
+    include!(concat!(env!("FLAC_CODEC_VERIF_KANI"), "/k_metadata.rs"));
+}
